@@ -289,7 +289,7 @@ func genRelay(t *rapid.T) RelayCase {
 	n := rapid.IntRange(1, 10).Draw(t, "n")
 	for i := 0; i < n; i++ {
 		c.Dgrams = append(c.Dgrams, RelayDgram{
-			Dest: rapid.IntRange(0, 3).Draw(t, "dest"),
+			Dest: rapid.IntRange(0, 4).Draw(t, "dest"),
 			Len:  rapid.SampledFrom([]int{0, 1, 3, 4, 255, 256, 1472, 8000, 30000, 60000}).Draw(t, "len"),
 			Fill: rapid.SampledFrom([]int{0, 0, 1, 2, 3}).Draw(t, "fill"),
 		})
@@ -372,9 +372,13 @@ func propRelay(c RelayCase) (o pbt.Outcome) {
 		case 0, 1:
 			p := port(echoes[dest])
 			return []byte{0, 0, 0, 1, 127, 0, 0, 1, byte(p >> 8), byte(p)}
-		case 2:
+		case 2, 4:
+			// destination 4 is the same name with another port (sink 1)
 			name := "echo.test"
 			p := port(e2)
+			if dest == 4 {
+				p = port(e1)
+			}
 			h := append([]byte{0, 0, 0, 3, byte(len(name))}, name...)
 			return append(h, byte(p>>8), byte(p))
 		default:
@@ -587,7 +591,7 @@ func propRelay(c RelayCase) (o pbt.Outcome) {
 		}
 		var want [][]byte
 		for _, s := range sents {
-			if s.dest == di {
+			if sinkOf(s.dest) == di {
 				want = append(want, s.payload)
 			}
 		}
@@ -614,55 +618,73 @@ func propRelay(c RelayCase) (o pbt.Outcome) {
 			o.Inconclusive = fmt.Sprintf("destination %d received %d of %d datagrams (lost on the loopback path?)", di, len(got), len(want))
 		}
 	}
-	// replies carry the replying host's address (or the name the client used)
+	// replies carry the replying host's address: its literal address, or the
+	// name the client used for that host (mieru maps the replying endpoint back
+	// to a name the client has used for it in this association)
+	namedSink := func(r []byte) (sink int, hdrLen int) {
+		if len(r) < 4 {
+			return -1, 0
+		}
+		var p int
+		switch r[3] {
+		case 1:
+			if len(r) < 10 || !bytes.Equal(r[4:8], []byte{127, 0, 0, 1}) {
+				return -1, 0
+			}
+			p, hdrLen = int(r[8])<<8|int(r[9]), 10
+		case 4:
+			if len(r) < 22 || !bytes.Equal(r[4:20], net.ParseIP("::1").To16()) {
+				return -1, 0
+			}
+			p, hdrLen = int(r[20])<<8|int(r[21]), 22
+		case 3:
+			if len(r) < 5 || len(r) < 5+int(r[4])+2 || string(r[5:5+int(r[4])]) != "echo.test" {
+				return -1, 0
+			}
+			hdrLen = 5 + int(r[4]) + 2
+			p = int(r[hdrLen-2])<<8 | int(r[hdrLen-1])
+		default:
+			return -1, 0
+		}
+		for k, e := range echoes {
+			if e != nil && port(e) == p {
+				if (r[3] == 4) != (k == 3) {
+					continue
+				}
+				return k, hdrLen
+			}
+		}
+		return -1, 0
+	}
 	used := make([]bool, len(sents))
 	for ri, r := range replies {
+		sink, hl := namedSink(r)
 		matched := false
-		for si, s := range sents {
-			if used[si] {
-				continue
-			}
-			h := header(s.dest)
-			if len(r) == len(h)+len(s.payload) && bytes.Equal(r[len(h):], s.payload) {
-				// the header must name the destination that echoed it
-				hdrOK := bytes.Equal(r[:len(h)], h)
-				if !hdrOK && s.dest == 2 {
-					// address form instead of the name is acceptable
-					p := port(e2)
-					alt := []byte{0, 0, 0, 1, 127, 0, 0, 1, byte(p >> 8), byte(p)}
-					hdrOK = len(r) >= len(alt) && bytes.Equal(r[:len(alt)], alt)
-				}
-				if hdrOK {
-					used[si] = true
-					matched = true
+		if sink >= 0 {
+			for si, s := range sents {
+				if !used[si] && sinkOf(s.dest) == sink && bytes.Equal(r[hl:], s.payload) {
+					used[si], matched = true, true
 					break
 				}
 			}
 		}
 		if !matched {
-			// maybe the address form of a domain destination with a shorter header
-			ok := false
-			for si, s := range sents {
-				if used[si] || s.dest != 2 {
-					continue
-				}
-				p := port(e2)
-				alt := []byte{0, 0, 0, 1, 127, 0, 0, 1, byte(p >> 8), byte(p)}
-				if len(r) == len(alt)+len(s.payload) && bytes.Equal(r[:len(alt)], alt) && bytes.Equal(r[len(alt):], s.payload) {
-					used[si], ok = true, true
-					break
-				}
-			}
-			if !ok {
-				o.Failf("reply", "reply #%d (%d bytes, header % x) does not carry the replying host's address with the echoed payload", ri, len(r), r[:min(len(r), 24)])
-				return
-			}
+			o.Failf("reply", "reply #%d (%d bytes, header % x) does not carry the address (or a name the client used) of the host that echoed its payload", ri, len(r), r[:min(len(r), 24)])
+			return
 		}
 	}
 	if len(replies) < len(sents) && o.Inconclusive == "" {
 		o.Inconclusive = fmt.Sprintf("%d of %d replies arrived", len(replies), len(sents))
 	}
 	return
+}
+
+// sinkOf maps a destination of the table to the echo server behind it.
+func sinkOf(dest int) int {
+	if dest == 4 {
+		return 1
+	}
+	return dest
 }
 
 func min(a, b int) int {
